@@ -66,6 +66,8 @@ PROPS = {
     "C06": dict(module="ZkElGamal.Props.C06", ns="Zk.Props.C06", trusted=[DALEK, MERLIN],
                 assumptions=[DALEK, MERLIN, "the quantifier 'across every future revision' is met by pinning: kat/v1.ops and Model/LabelsV1.lean are committed and never regenerated by a check",
                              "the executable Lean model is the independent implementation; its own prover/verifier consistency is theorem C05.*.complete for four protocols and tested for the rest"]),
+    "C07": dict(module="ZkElGamal.Props.C07", ns="Zk.Props.C07", trusted=[DALEK, MERLIN],
+                assumptions=[ROM, DALEK, MERLIN, "instances are sampled (bit positions are exhaustive per instance in the thorough tier; field-boundary bytes plus one seeded bit per byte in quick)"]),
     "C08": dict(module="ZkElGamal.Props.C08", ns="Zk.Props.C08", trusted=[DALEK],
                 assumptions=["panic-freedom of curve25519-dalek, base64, serde_json, bytemuck, merlin themselves is observed through catch_unwind only, not proved",
                              "harness built with the dev profile: overflow checks and debug assertions on",
@@ -133,6 +135,12 @@ MANIFEST_TEXT = {
         text="The executable model (Keccak/STROBE/Merlin, Ristretto255, SHA3/SHAKE generators written in Lean) is an independent implementation of the version-1 protocol. Every run: all twelve instructions Rust-proved -> model-verified and model-proved -> Rust-verified on honest statements, "
              "G and H byte-compared, kat/v1.ops (pinned Rust-produced proofs of all twelve instructions plus pinned rejections) verified by both sides; theorems: label set, domain separator, instruction labels distinct, proof-data layouts = v1.",
         note="Trusted: Lean kernel for the table theorems; the interoperability claim itself is differential (model vs code) and pinned-vector based. A harmless relabelling of internal (non-wire) strings would break labels_v1 without violating the property: reported as no-failing-input-found."),
+    "C07": dict(
+        technique="Lean 4 proof (injective decoding, challenge independent of responses, response binding) + differential correspondence over bit flips of accepted instances, proof transplants and substituted statements",
+        text="Theorems (four C01 protocols): parse is injective, so any bit change alters a parsed field or fails parsing; the challenge c depends only on label, statement and masking bytes; changing any response with statement and masking commitments fixed breaks an equation. "
+             "Changes to statement / masking fields alter the transcript input before c (ROM step not proved). Correspondence, all twelve instructions: accepted Rust instances with bit flips (thorough: every bit of context and proof; quick: all bits of the first/last byte of every 32-byte field, one seeded bit per other byte, all bits of max_value and bit-length bytes), "
+             "same proof under another true statement, transplants among the 160-byte and 192-byte proof families: every mutant must be rejected by both sides.",
+        note=SIGMA_NOTE),
     "C08": dict(
         technique="Lean 4 proof (no_panic theorems over decoder models with Rust's partial operations explicit) + differential correspondence under catch_unwind with overflow checks on",
         text="Theorems: point/scalar/key-pair/ciphertext/grouped-ciphertext (any handle count)/AE decoders and Pod extraction by index never reach a panic outcome for any byte string / index (slice bounds, checked arithmetic, unwraps, asserts are explicit in the model); "
